@@ -12,11 +12,13 @@ RULE = ('all seven queue classes x small stimulus sets (1-3 stimuli, lengths 1..
         'absolute times that are 0.0 / int 0 (falsy) with the clock elsewhere (negative start offset), the rejection boundary (clock, clock+1, +-0.4, +-0.6 sample), '
         'pause before any request / while paused / untimed then timed, resume while running / twice / backwards, zero-size requests, declared durations longer / '
         'shorter than the waveform and 0, trials set up with decrement=False, every source container / trial-count kind / delay kind, constructor variants, '
-        'clone() and get_closest_key while paused, random histories over that whole grammar. Non-trivial: the pause removed at least one trial.')
+        'clone() and get_closest_key while paused, rejected pauses at every position relative to the trial in progress followed by resume / requests / a legal pause '
+        'at every position, logs of 300-600 one- or two-sample trials generated ahead and cancelled by an early pause, random histories over that whole grammar. Non-trivial: the pause removed at least one trial.')
 TRUSTED = ['harness/queuecore.py']
 ASSUMPTIONS = ['pause/resume times are T0 + k/fs with k on or off the grid; the model gets the sample index int(round((t - t0)*fs)) computed with the code\'s own float '
                'expression, and "not after the clock" / "ends after t" are judged on that index (the code compares on the sample grid after the repair)',
-               'a rejected (future) pause ends the history: the property does not say what the state is afterwards',
+               'a rejected (future) pause does NOT end the history: what it leaves behind is compared with the model (cancel + requeue + log trimming done, clock '
+               'kept, paused); the oracle takes its removed notifications at face value (each must be a live presentation) and keeps checking conservation',
                'declared durations are whole numbers of samples (they may differ from the waveform length: "ends after t" is about the declared duration)',
                'trials set up with decrement=False are notified as removed but nothing is restored (requeue docstring); conservation counts decremented trials only']
 FS = [1000.0, 195312.5, 97656.25]
@@ -95,6 +97,9 @@ def _rand_hist(c, rng, nops):
                 ops.append(['pause', None, rng.choice(['', 'noarg', 'kw'])])
                 continue
             t = rng.randint(max(0, clock - 15), clock) + rng.choice([0, 0, 0.3, -0.3, 0.5, -0.5, 0.45])
+            if rng.random() < 0.12:
+                ops.append(['pause', clock + rng.choice([1, 2, 3, 6, 30])])      # rejected: the clock stays, the history goes on
+                continue
             if t < 0 or qc.eff_time(c, t) > clock:
                 t = clock
             ops.append(['pause', t, rng.choice(['', '', 'np', 'kw'])])
@@ -180,6 +185,38 @@ def _audit_cases(quick, rng, sets):
             c = base(pol, st, mk=mk, seed=0, fs=1000.0)
             t = rng.randint(0, 9)
             yield dict(c, ops=[['pop', 9], ['pause', t], ['pop', 2], ['resume', t + 3]] + fin)
+    # a REJECTED pause does not end the history: rejected at every position relative to the trial in progress (inside
+    # its waveform, inside the delay after it, far ahead), then resume() / resume(t), more requests, and a later legal
+    # pause at every position (before / inside / after the nominal span of the trial the rejection touched)
+    for si, st in enumerate(sets[:2] if quick else sets):
+        for pol in qc.POLICIES:
+            c = base(pol, st, t0=rng.choice([0, 0, 12.34, -6]))
+            for a in ((2, 5) if quick else range(1, 9)):
+                for dt in ((1, 2, 3, 5, 40) if quick else (1, 2, 3, 4, 5, 6, 8, 40)):
+                    later = list(range(0, a + 8))
+                    for t2 in (rng.sample(later, 4) if quick else later):
+                        res = rng.choice([None, None, a, a + 1])
+                        b = max(0, t2 - (a if res is None else res)) + rng.choice([0, 1, 3])    # enough requests for t2 to be legal
+                        yield dict(c, ops=[['pop', a], ['pause', a + dt], ['pop', 2], ['resume', res], ['pop', b], ['pause', t2],
+                                           ['pop', 2], ['resume', t2 + 1]] + fin)
+            # two rejections in a row, a rejection while paused, a rejection straight after a legal pause
+            for a in (3, 6):
+                yield dict(c, ops=[['pop', a], ['pause', a + 1], ['pause', a + 2], ['resume', None], ['pop', 4], ['pause', a]] + [['resume', a]] + fin)
+                yield dict(c, ops=[['pop', a], ['pause', a - 1], ['pause', a + 1], ['pop', 2], ['resume', a], ['pop', 3], ['pause', a + 1], ['resume', a + 1]] + fin)
+                yield dict(c, ops=[['pop', a], ['pause', None], ['pause', a + 2], ['resume', None], ['pop', 5], ['pause', a - 1], ['resume', a + 3]] + fin)
+    # long logs: hundreds of very short trials generated ahead in one or a few requests, then a pause at an EARLY time
+    # (every one of them ends after t: each is announced as removed once and restored), resume, run to empty
+    for pol in qc.POLICIES:
+        for _ in range(1 if quick else 6):
+            n = rng.choice([1, 2, 3])
+            st = [{'len': rng.choice([1, 2]), 'trials': rng.randint(300, 600) // n, 'kind': rng.choice(['array', 'gen']),
+                   'delays': rng.choice([0, 1])} for _ in range(n)]
+            total = sum(x['trials'] * (x['len'] + x['delays']) for x in st)
+            ahead = rng.randint(total * 3 // 4, total + 20)
+            pre = [['pop', ahead]] if rng.random() < 0.5 else [['pop', ahead // 3], ['pop', ahead // 3], ['pop', ahead - 2 * (ahead // 3)]]
+            t = rng.choice([0, 1, 2, 5, 9])
+            c = base(pol, st, gs=rng.randint(1, n + 1), nperms=2 * (600 // n) + 40, fill='append')
+            yield dict(c, ops=pre + [['pause', t], ['pop', 3], ['resume', t + rng.choice([0, 2])], ['pop', 4 * total + 50], ['pop', 5]])
     # random histories over the full grammar, stimuli of every container / trial-count / delay kind
     for _ in range(120 if quick else 3000):
         n = rng.randint(1, 3)
@@ -244,9 +281,19 @@ def oracle(case, res):
         if o[0] == 'pause':
             t = None if o[1] is None else qc.eff_time(case, o[1])      # sample index the time denotes
             if 'raised' in r:
-                # must be a future pause
-                return None if (t is not None and t > clk) else 'pause raised ValueError for a time not after the clock'
-            if t is not None:
+                # must be a future pause.  The property does not say what a rejected pause leaves behind, so the
+                # notifications are taken at face value: whatever it announced as removed must have been live
+                # (never the same presentation twice), and the accounting below must go on holding.
+                if not (t is not None and t > clk):
+                    return 'pause raised ValueError for a time not after the clock'
+                for e in r['events']:
+                    if e[0] == 'removed':
+                        hit = [y for y in live if y[:2] == [e[1], e[2]]]
+                        if not hit:
+                            return f'rejected pause({o[1]}): removed notification for trial {[e[1], e[2]]}, which is not a live presentation'
+                        live.remove(hit[0])
+                paused = None              # not stated: running or paused
+            elif t is not None:
                 if t > clk:
                     return 'a pause time later than the queue clock was accepted'
                 should = [x[:2] for x in live if x[1] + qc.declared_dur(stims[x[0]]) > t]
@@ -259,7 +306,8 @@ def oracle(case, res):
                     return f'pause({o[1]}) left the clock at {r["status"]["samples"]}'
             elif r['events']:
                 return 'pause() without a time sent notifications'
-            paused = True
+            if 'raised' not in r:
+                paused = True
             timed_pause = timed_pause or t is not None
         elif o[0] == 'resume':
             paused = False
@@ -298,14 +346,14 @@ def oracle(case, res):
                 return f'after {o}: remaining trials {r["status"]["remaining"]}, but requested - (added - removed) = {want}'
     last = [r for r in res if 'status' in r]
     last = last[-1] if last and 'raised' not in res[-1] else None
-    if last is not None and last['status']['empty'] and not paused:
+    if last is not None and last['status']['empty'] and paused is False:
         net = [sum(1 for x in live if x[0] == k and x[2]) for k in range(len(stims))]
         if case['pol'] in qc.EXACT:
             if net != req:
                 return f'at empty: non-cancelled presentations {net}, requested {req}'
         elif any(a < b for a, b in zip(net, req)):
             return f'at empty: non-cancelled presentations {net} fewer than requested {req}'
-    elif last is not None and not paused:
+    elif last is not None and paused is False:
         return 'queue never reported empty'
     return None
 
